@@ -115,6 +115,40 @@ def program(fn, tuples):
     return "\n".join(lines) + "\n"
 
 
+def pair_program(fn, pairs):
+    """two calls of the SAME library function in one statement (round 7: C15-8, one result variable per called function in the bash
+    output - both operands read the value of the last call); every result is needed at once: as operands of one expression, as
+    arguments of one print, as arguments of another call of the library"""
+    _, rets = SIGS[fn]
+    lines = ['import "strings"']
+    exp = []
+    for i, ((t1, g1), (t2, g2)) in enumerate(pairs):
+        c1 = "strings.%s(%s)" % (fn, ", ".join(tsh_arg(a) for a in t1))
+        c2 = "strings.%s(%s)" % (fn, ", ".join(tsh_arg(a) for a in t2))
+        lines.append('print("#%d")' % i)
+        exp.append("#%d" % i)
+        v1, v2 = g1.split(":", 1)[1], g2.split(":", 1)[1]
+        if rets == "s":
+            lines.append('print("[" + %s + "|" + %s + "]")' % (c1, c2))
+            exp += ("[" + bytes.fromhex(v1).decode() + "|" + bytes.fromhex(v2).decode() + "]").split("\n")
+        elif rets == "i":
+            lines.append("print(%s, %s, %s - %s)" % (c1, c2, c1, c2))
+            exp.append("%s %s %d" % (v1, v2, int(v1) - int(v2)))
+        else:
+            lines.append("print(%s, %s, %s && !%s)" % (c1, c2, c1, c2))
+            exp.append("%s %s %d" % (v1, v2, 1 if (v1 == "1" and v2 != "1") else 0))
+    return "\n".join(lines) + "\n", exp
+
+
+MULTI_FILE = {
+    "main.tsh": 'import (\n\ta "a.tsh"\n\tb "b.tsh"\n\tc "c.tsh"\n)\nprint(a.GetBanner())\nprint(b.GetPos())\nprint(c.GetParts())\n',
+    "a.tsh": 'import "strings"\nvar Banner = strings.Repeat("ab", 2)\nfunc GetBanner() string {\n\treturn Banner\n}\n',
+    "b.tsh": 'import "strings"\nvar Pos = strings.Index("abab", "b")\nfunc GetPos() int {\n\treturn Pos\n}\n',
+    "c.tsh": 'import "strings"\nvar Parts = strings.Split("a,b,c", ",")\nvar Joined = strings.Join(Parts, "+")\nfunc GetParts() string {\n\treturn Joined + strings.TrimSpace("  x ")\n}\n',
+}
+MULTI_FILE_EXPECTED = ["abab", "1", "a+b+cx"]
+
+
 def run(res, b, tier, seed):
     rng = random.Random(seed * 1543 + 15)
     pr = common.prove("C15")
@@ -124,6 +158,9 @@ def run(res, b, tier, seed):
         return
     quick = tier == "quick"
     batches = []
+    pair_cases = [pipeline.Case("multi-file", {k: v.encode() for k, v in MULTI_FILE.items()},
+                                meta=dict(fn="(several, called at the top level of three imported files)", expected=MULTI_FILE_EXPECTED,
+                                          src="\n".join("// %s\n%s" % kv for kv in MULTI_FILE.items())))]
     total = 0
     spec_dis, model_lines_by = [], {}
     for fn in SIGS:
@@ -139,6 +176,11 @@ def run(res, b, tier, seed):
             model_lines_by[(fn, repr(t))] = ml
         pairs = [(t, g) for t, g in zip(tuples, golines) if g != "panic"]
         total += len(pairs)
+        if SIGS[fn][1] in ("s", "i", "b") and len(pairs) > 1:
+            r2 = random.Random(seed * 7 + len(fn))
+            pp = [(r2.choice(pairs), r2.choice(pairs)) for _ in range(40)]
+            psrc, pexp = pair_program(fn, pp)
+            pair_cases.append(pipeline.Case("pair-" + fn, {"main.tsh": psrc.encode()}, meta=dict(fn=fn, expected=pexp, src=psrc)))
         size = 60
         for i in range(0, len(pairs), size):
             chunk = pairs[i:i + size]
@@ -150,6 +192,19 @@ def run(res, b, tier, seed):
             batches.append(pipeline.Case("%s-%d" % (fn, i), {"main.tsh": src.encode()}, meta=dict(fn=fn, chunk=chunk, expected=exp, src=src)))
     pipeline.run_pipe(b, batches, "s")
     fails = []
+    pipeline.run_pipe(b, pair_cases, "s")
+    pok = [c for c in pair_cases if c.out.get("BASH", ("", ""))[0] == "OK"]
+    for c in pair_cases:
+        if c not in pok:
+            fails.append((c.meta["fn"], None, "program with several library calls in one statement not transpiled", None, None))
+    for c, r in zip(pok, common.pmap_proc(_exec, [bytes.fromhex(c.out["BASH"][1]) for c in pok])):
+        got = r["stdout"].decode("latin1").split("\n")
+        if got and got[-1] == "":
+            got = got[:-1]
+        if got != c.meta["expected"] or r["stderr"] != b"":
+            k = next((i for i, (x, y) in enumerate(zip(got, c.meta["expected"])) if x != y), min(len(got), len(c.meta["expected"])))
+            fails.append((c.meta["fn"], None, "several library calls in one statement / one program: output differs from Go at line %d; program:\n%s" % (k, c.meta["src"][:3000]),
+                          c.meta["expected"][max(0, k - 2):k + 2], got[max(0, k - 2):k + 2] + [r["stderr"].decode("latin1")[:200]]))
     runnable = []
     for c in batches:
         if c.out.get("BASH", ("", ""))[0] != "OK":
